@@ -107,7 +107,7 @@ def run(r):
             ref = c02.REFNAME[v]
             lits = [f"(obs_spec_resolve {ref} {C.blist(c['code'])}, {C.zlist(o['obs'])})" for c, o in zip(oc, res) if "obs" in o]
             bad, errs = C.coq_cases(r.wd, "specres" + v.replace(".", ""), HEADER, "list Z * list Z", "fun c => zlist_eqb (fst c) (snd c)", lits, chunk=150)
-            if errs or bad:
+            if C.spec_problem(r, errs, bad):
                 print(f"MACHINERY-ERROR: resolution spec disagrees with CPython {v}'s dis:", errs[:1], [lits[b][:300] for b in bad[:2]])
                 raise SystemExit(2)
             total += len(lits)
